@@ -183,6 +183,15 @@ func scTransportChannel(r *Run) {
 			s2c: &chanSide{name: fmt.Sprintf("s%d s2c", i), sent: map[msgKey]int{}}})
 	}
 	r.Logf("established %d session(s) hidden=%v", len(sessions), hidden)
+	// long-lived sessions: the packet counters of some directions are already large
+	for _, s := range sessions {
+		if r.Intn("ctr", 5) == 0 {
+			bases := []uint64{1<<32 - 1 - uint64(r.Intn("ctr", 300)), 1<<31 - uint64(r.Intn("ctr", 300)), 1<<40 + r.U64("ctr")%(1<<20), 1<<63 - uint64(r.Intn("ctr", 300))}
+			s.tc.C.VerifSetSendCounter(bases[r.Intn("ctr", len(bases))])
+			s.h.VerifSetSendCounter(bases[r.Intn("ctr", len(bases))])
+			r.CountFault("send-counters-moved-forward", 1)
+		}
+	}
 
 	// swarm fault configuration (only after establishment: the handshake under faults is C01/C02/C10)
 	storm := time.Duration(200+r.Intn("cfg", 3000)) * time.Millisecond
